@@ -46,6 +46,8 @@ def datasets(tier):
         {'family': 'cf1d', 'ny': 2, 'nx': 3, 'declare_reversed': True},
         {'family': 'shoc_standard', 'nj': 3, 'ni': 2, 'declare_reversed': True},
         {'family': 'ugrid', 'mesh': 'M11'},
+        # the topology names an edge dimension that no variable carries (edges are only implied)
+        {'family': 'ugrid', 'mesh': 'M4', 'edge_dim': 'declared'},
     ]
     specs += builders.history_specs(tier)
     if tier == 'thorough':
@@ -67,6 +69,8 @@ def _cases_first_call(tier):
         for kind in truth.kinds:
             for extras in range(4):
                 out.append({'spec': spec, 'kind': kind, 'extras': extras})
+            if not spec.get('history'):
+                out.append({'spec': spec, 'kind': kind, 'extras': 'empty'})
     return out
 
 
@@ -87,7 +91,8 @@ def _run_case_first_call(case):
     kind_obj = builders.grid_kind_object(truth, kind)
     default_kind = kind == truth.default_kind
     fp = f"C03/{truth.family}/{kind}"
-    extras = EXTRA[:case['extras']]
+    # 'empty': a dimension of length zero next to the grid (a time axis with no records yet)
+    extras = [('a', 2), ('z', 0)] if case['extras'] == 'empty' else EXTRA[:case['extras']]
     sizes = {**{d: s for d, s in zip(grid_dims, grid_shape)}, **dict(extras)}
     extra_names = tuple(n for n, _ in extras)
     if not default_kind:
